@@ -2548,6 +2548,7 @@ void uncrustify_end()
    cpd.pp_level    = 0;
    cpd.changes     = 0;
    cpd.in_preproc  = CT_NONE;
+   cpd.last_char   = 0;       // a trailing CR must not turn into a newline in front of the next file
    memset(cpd.le_counts, 0, sizeof(cpd.le_counts));
    cpd.preproc_ncnl_count                     = 0;
    cpd.ifdef_over_whole_file                  = 0;
